@@ -218,6 +218,12 @@ class Evaluator:
         if "un" in rv and rv["un"] == "Neg":
             a = self.operand(rv["a"], depth + 1)
             return a.scale(-1) if a is not TOP else TOP
+        if "un" in rv and rv["un"] == "Not":
+            # two's complement: !x == -x - 1 (integers only; a bool operand has no affine form and stays TOP)
+            a = self.operand(rv["a"], depth + 1)
+            ty = self.body.locals[l].get("ty", "") if l < len(self.body.locals) else ""
+            if a is not TOP and ty != "bool":
+                return a.scale(-1) - Aff.const(1)
         return TOP
 
     def def_forms(self, l):
